@@ -863,7 +863,8 @@ func serveError(c context.Context, ctx *app.RequestContext, code int, defaultMes
 	ctx.Next(c)
 	if ctx.Response.StatusCode() == code {
 		// if body exists(maybe customized by users), leave it alone.
-		if ctx.Response.HasBodyBytes() || ctx.Response.IsBodyStream() {
+		// (a handler that answered through a hijacked writer has written its body)
+		if ctx.Response.HasBodyBytes() || ctx.Response.IsBodyStream() || ctx.Response.GetHijackWriter() != nil {
 			return
 		}
 		ctx.Response.Header.Set("Content-Type", "text/plain")
